@@ -4,6 +4,7 @@
 import FinVerif.Driver.C06Parse
 import FinVerif.Model.C06
 import FinVerif.Model.C01
+import FinVerif.Model.C01Onf
 import FinVerif.Gen.RatesF
 open FinVerif FinVerif.Driver FinVerif.Driver.C06P FinVerif.Spec.C06 FinVerif.Model.C06 FinVerif.Model.C02
 open FinVerif.Model.C01 FinVerif.Gen
@@ -72,6 +73,20 @@ def opSobj : P String := do
   -- `_f`: swap.value(value_dt, discount, index, None) / swap.fixed_leg.notional
   pure (showFloat (swapValue df idx none s vd / s.fixed.notional))
 
+/-- `ONFS nfits (n times dfs)* k queries`: ONE `Interpolator(LINEAR_ONFWD_RATES)` object fitted `nfits` times in a row
+(a one-knot fit keeps the previous spline), then read at the queries. -/
+def opOnfs : P String := do
+  let fits ← pList pKnots
+  let qs ← pList pFloat
+  let st := fits.foldl (fun (s : OnfState Float) k => onfFitState s k.1 k.2) onfNew
+  pure (" ".intercalate (qs.map (fun q => showExcept showFloat (onfInterp st q))))
+
+/-- `ONFF n times dfs`: the fitted spline `(onf_times, onf_rates)` of a multi-knot fit. -/
+def opOnff : P String := do
+  let k ← pKnots
+  let s := onfSplineOf k.1 k.2
+  pure (toString (s.2.length + 1) ++ " " ++ showFloats ((0.0 : Float) :: s.2.map (·.1)) ++ " " ++ showFloats (s.1 :: s.2.map (·.2)))
+
 def step (t : List String) : String :=
   let r : Option String := match t with
     | ["DK", acc, r] => (floats? [acc, r]).bind fun
@@ -96,6 +111,8 @@ def step (t : List String) : String :=
     | "BOOT" :: a => run opBoot a
     | "FOBJ" :: a => run opFobj a
     | "SOBJ" :: a => run opSobj a
+    | "ONFS" :: a => run opOnfs a
+    | "ONFF" :: a => run opOnff a
     | _ => none
   r.getD "bad-op"
 
